@@ -495,6 +495,13 @@ def run(tier, seed, replay=None):
         outcomes["upstream-answer:" + oi.split(" ")[0]] += 1
     # ---- clients that connect over IPv6 from a non-loopback address (::1 is folded into IPv4 by the listeners) ---------
     v6 = global_ipv6()
+    if v6:
+        try:
+            t_ = socket.socket(socket.AF_INET6, socket.SOCK_STREAM)
+            t_.bind((v6, 0))
+            t_.close()
+        except OSError:
+            v6 = None
     v6_stats = {"address": v6, "cases": 0}
     if v6:
         import struct
